@@ -184,6 +184,9 @@ type SEntry struct {
 	HasLf  bool
 	LK, LV []byte
 	H      []byte
+	// claimed Left/Right hashes of a non-compact internal node encoding
+	HasClaim bool
+	CL, CR   []byte
 }
 
 // decodeEntry projects a raw proof entry to what verifyProof sees of it: the
@@ -215,6 +218,11 @@ func decodeEntry(raw []byte) (e SEntry) {
 				lf := nd.LeafNode.Node.(*node.LeafNode)
 				e.HasLf, e.LK, e.LV = true, lf.Key, lf.Value
 			}
+			if nd.Left != nil || nd.Right != nil {
+				// only the full (non-compact) encoding sets these (node.go:520-545)
+				hl, hr := nd.Left.GetHash(), nd.Right.GetHash()
+				e.HasClaim, e.CL, e.CR = true, hl[:], hr[:]
+			}
 			return e
 		}
 		return SEntry{Kind: "bad"}
@@ -236,7 +244,11 @@ func (e SEntry) coq() string {
 		if e.HasLf {
 			lf = fmt.Sprintf("(Some (%s, %s))", coqBytes(e.LK), coqBytes(e.LV))
 		}
-		return fmt.Sprintf("(EFull (NInt %d %s %s))", e.BL, coqBytes(e.LB), lf)
+		cl := "None"
+		if e.HasClaim {
+			cl = fmt.Sprintf("(Some (%s, %s))", coqBytes(e.CL), coqBytes(e.CR))
+		}
+		return fmt.Sprintf("(EFull (NInt %d %s %s %s))", e.BL, coqBytes(e.LB), lf, cl)
 	case "hash":
 		return fmt.Sprintf("(EHash %s)", coqBytes(e.H))
 	}
@@ -997,6 +1009,196 @@ func forged(base Mut) []Mut {
 	return out
 }
 
+// ---------- entries in the full (non-compact) node encoding ----------
+
+type intInfo struct {
+	hl, hr           []byte // real hashes of the children the proof supplies
+	lfS, lfE         int    // version 1: span of the leaf child
+	lS, lE, rS, rE   int    // spans of the left / right child
+}
+
+// analyze parses an (honest) entry list and records, for every internal-node
+// entry, the spans of its children and the hashes they evaluate to.
+func analyze(es []SEntry, ver uint16) map[int]intInfo {
+	out := map[int]intInfo{}
+	var rec func(idx int) ([]byte, int, bool)
+	rec = func(idx int) ([]byte, int, bool) {
+		if idx >= len(es) {
+			return nil, 0, false
+		}
+		e := es[idx]
+		switch e.Kind {
+		case "nil":
+			h := hash.NewFromBytes()
+			return h[:], idx + 1, true
+		case "hash":
+			return e.H, idx + 1, len(e.H) == hash.Size
+		case "leaf":
+			h := hash.NewFromBytes(leafPre(e.K, e.V))
+			return h[:], idx + 1, true
+		case "int":
+			var in intInfo
+			pos := idx + 1
+			var hlf []byte
+			ok := true
+			if ver == 0 {
+				if e.HasLf {
+					h := hash.NewFromBytes(leafPre(e.LK, e.LV))
+					hlf = h[:]
+				} else {
+					h := hash.NewFromBytes()
+					hlf = h[:]
+				}
+			} else {
+				in.lfS = pos
+				if hlf, pos, ok = rec(pos); !ok {
+					return nil, 0, false
+				}
+				in.lfE = pos
+			}
+			in.lS = pos
+			if in.hl, pos, ok = rec(pos); !ok {
+				return nil, 0, false
+			}
+			in.lE, in.rS = pos, pos
+			if in.hr, pos, ok = rec(pos); !ok {
+				return nil, 0, false
+			}
+			in.rE = pos
+			out[idx] = in
+			var bl [2]byte
+			binary.LittleEndian.PutUint16(bl[:], e.BL)
+			pre := append([]byte{0x01}, bl[:]...)
+			pre = append(pre, e.LB...)
+			pre = append(pre, hlf...)
+			pre = append(pre, in.hl...)
+			pre = append(pre, in.hr...)
+			h := hash.NewFromBytes(pre)
+			return h[:], pos, true
+		}
+		return nil, 0, false
+	}
+	rec(0)
+	return out
+}
+
+// fullEnc: the root entry and one inner internal-node entry of an honest proof
+// re-encoded in the FULL node encoding, i.e. with the REAL hashes of its
+// children appended (node.go:449-470), followed by (a) the honest children,
+// (b) fabricated children (other value, other key, dropped subtree, extra
+// subtree), (c) no children at all.
+func fullEnc(r *prng.R, base Mut) []Mut {
+	es := decodeAll(toRaw(base.Entries))
+	info := analyze(es, base.V)
+	var idxs []int
+	for i := range es {
+		if _, ok := info[i]; ok {
+			idxs = append(idxs, i)
+		}
+	}
+	if len(idxs) == 0 {
+		return nil
+	}
+	sort.Ints(idxs)
+	pick := []int{idxs[0]}
+	if len(idxs) > 1 {
+		pick = append(pick, idxs[1+r.Intn(len(idxs)-1)])
+	}
+	leaf := func(k, v []byte) HB {
+		ln := node.LeafNode{Key: nn(k), Value: nn(v)}
+		b, _ := ln.CompactMarshalBinaryV1()
+		return append([]byte{0x01}, b...)
+	}
+	// some key/value that occurs in the proof, to forge a plausible neighbour
+	someK, someV := []byte{0x00}, []byte("x")
+	for _, e := range es {
+		if e.Kind == "leaf" {
+			someK, someV = e.K, e.V
+			break
+		}
+	}
+	var out []Mut
+	for n, idx := range pick {
+		in := info[idx]
+		where := "root"
+		if n > 0 {
+			where = fmt.Sprintf("inner entry %d", idx)
+		}
+		full := append(nn(base.Entries[idx]), in.hl...)
+		full = append(full, in.hr...)
+		build := func(what string, mid []HB, cutAfter bool) Mut {
+			m := Mut{What: what, V: base.V, Untrusted: nn(base.Untrusted)}
+			for _, e := range base.Entries[:idx] {
+				m.Entries = append(m.Entries, cloneHB(e))
+			}
+			m.Entries = append(m.Entries, nn(full))
+			m.Entries = append(m.Entries, mid...)
+			if !cutAfter {
+				for _, e := range base.Entries[in.rE:] {
+					m.Entries = append(m.Entries, cloneHB(e))
+				}
+			}
+			return m
+		}
+		span := func(a, b int) []HB {
+			var o []HB
+			for _, e := range base.Entries[a:b] {
+				o = append(o, cloneHB(e))
+			}
+			return o
+		}
+		lfPart := []HB{}
+		if base.V != 0 {
+			lfPart = span(in.lfS, in.lfE)
+		}
+		honest := append(append(append([]HB{}, lfPart...), span(in.lS, in.lE)...), span(in.rS, in.rE)...)
+		out = append(out, build("fullenc-honest: "+where+" in full encoding, honest children", honest, false))
+		// fabricated child on one side
+		fab := func(kind string, child []HB) Mut {
+			left := r.Chance(50)
+			var mid []HB
+			mid = append(mid, lfPart...)
+			if left {
+				mid = append(append(mid, child...), span(in.rS, in.rE)...)
+			} else {
+				mid = append(append(mid, span(in.lS, in.lE)...), child...)
+			}
+			side := "right"
+			if left {
+				side = "left"
+			}
+			return build("fullenc-"+kind+": "+where+" in full encoding, "+side+" child fabricated ("+kind+")", mid, false)
+		}
+		kinds := []string{"value", "key", "dropped", "extra"}
+		if n > 0 {
+			kinds = []string{kinds[r.Intn(4)]}
+		}
+		for _, kd := range kinds {
+			switch kd {
+			case "value":
+				out = append(out, fab("value", []HB{leaf(someK, append(nn(someV), 0x45))}))
+			case "key":
+				out = append(out, fab("key", []HB{leaf(append(nn(someK), 0x01), someV)}))
+			case "dropped":
+				out = append(out, fab("dropped", []HB{nil}))
+			case "extra":
+				out = append(out, fab("extra", []HB{leaf(genKey(r, nil), r.Bytes(1+r.Intn(4)))}))
+			}
+		}
+		if n == 0 {
+			out = append(out, build("fullenc-nochildren: "+where+" in full encoding, nothing after it", nil, true))
+		}
+	}
+	return out
+}
+
+func cloneHB(e HB) HB {
+	if e == nil {
+		return nil
+	}
+	return nn(e)
+}
+
 // ---------- running candidates on the implementation ----------
 
 type oneShot struct {
@@ -1648,7 +1850,7 @@ func main() {
 		os.Exit(2)
 	}
 	wb := coqout.NewWriter(*out, coqHeader, "run_c04", "c04_eqb", 12)
-	sum := coqout.NewSummary("seeded trees of 0-12 keys over the byte alphabet {00,01,80,ff} (length 0-4, prefix/extension heavy, empty key), values 0-8 bytes; per tree 4 key-lookup proofs (versions 0/1 x siblings off/on; present / extension / prefix / random query), one SyncIterate (prefetch 0-10) and one SyncGetPrefixes (limit 0-10) proof, each with its mutants plus 8 forged proofs against the non-empty trusted root (single nil entry, single empty-hash entry, single root-hash entry, an unrelated one-key tree's proof re-labelled; versions 0/1); remote sessions: honest peer / corrupt peer x cache capacities, classified by (responses honest only?, cache vs tree size, cache vs largest response + path); evaluation = one candidate proof through the real VerifyProof+VerifyProofToWriteLog (plus remote-backed Gets), one SyncGet compared with the model builder, or one operation on a remote-backed tree; non-trivial = candidate with >= 2 entries; distinct = distinct (root, version, untrusted root, entry list)")
+	sum := coqout.NewSummary("seeded trees of 0-12 keys over the byte alphabet {00,01,80,ff} (length 0-4, prefix/extension heavy, empty key), values 0-8 bytes; per tree 4 key-lookup proofs (versions 0/1 x siblings off/on; present / extension / prefix / random query), one SyncIterate (prefetch 0-10) and one SyncGetPrefixes (limit 0-10) proof, each with its mutants plus 8 forged proofs against the non-empty trusted root (single nil entry, single empty-hash entry, single root-hash entry, an unrelated one-key tree's proof re-labelled; versions 0/1) and up to 9 proofs with the root / one inner internal-node entry in the FULL (non-compact) encoding carrying the real child hashes, followed by honest children, a fabricated child (other value, other key, dropped subtree, extra subtree) or no children; remote sessions: honest peer / corrupt peer x cache capacities, classified by (responses honest only?, cache vs tree size, cache vs largest response + path); evaluation = one candidate proof through the real VerifyProof+VerifyProofToWriteLog (plus remote-backed Gets), one SyncGet compared with the model builder, or one operation on a remote-backed tree; non-trivial = candidate with >= 2 entries; distinct = distinct (root, version, untrusted root, entry list)")
 	seen := map[string]bool{}
 
 	runCase := func(c Case) {
@@ -1775,6 +1977,7 @@ func main() {
 			sum.Count("honest-proof-entries", bucket(len(s.proof.Entries)))
 			ms := append([]Mut{base}, mutate(cr, base, prev, *nmut)...)
 			ms = append(ms, forged(base)...)
+			ms = append(ms, fullEnc(cr, base)...)
 			c := Case{Kind: "verify", KVs: kvs, Src: s.name, Keys: keys, Mutants: ms}
 			// the honest proof itself must be accepted
 			if v := verifyReal(w, base); !v.accepted {
@@ -1823,6 +2026,7 @@ func main() {
 					sum.Violations = append(sum.Violations, map[string]any{"what": fmt.Sprintf("honest sub-position proof does not resolve its key: %q, the tree says %q", a, truth(w, q)), "case": Case{Kind: "verify", KVs: kvs, Src: name, Keys: []HB{q}, Pos: in.hash, PosDepth: in.depth, PosPrefix: in.prefix, Mutants: []Mut{base}}})
 				}
 				sc.Mutants = append(append([]Mut{base}, mutate(cr, base, prev, *nmut)...), forged(base)...)
+				sc.Mutants = append(sc.Mutants, fullEnc(cr, base)...)
 				sum.Count("honest-proof", "subposition "+fmt.Sprintf("v%d", ver))
 				runCase(sc)
 			}
